@@ -385,6 +385,45 @@ def judge_c10(d):
     return None
 
 
+def _c07_parts(tok):
+    # "S[..] C[..] g1 t1 o- u10 v0 f0"  or  "closed:err:UnexpectedEof g0 o0"
+    out = {}
+    for w in tok.split():
+        if w.startswith("S[") or w.startswith("C["):
+            out[w[0]] = w[2:-1]
+        elif w.startswith("closed:"):
+            out["closed"] = w[7:]
+        else:
+            out[w[0]] = w[1:]
+    return out
+
+
+def judge_c07(d):
+    q, impl, model = d["query"], d["impl"], d["model"]
+    ops = q.split("ops=")[1].split(";")
+    io, mo = impl.split(" | "), model.split(" | ")
+    for k, (a, b) in enumerate(zip(io, mo)):
+        if a == b:
+            continue
+        pa, pb = _c07_parts(a), _c07_parts(b)
+        hist = ";".join(ops[:k + 1])
+        if pa.get("f") == "1" and pb.get("f") == "0":
+            return "after %s the multiplexer's exchange() had returned although the client is still there (a flow error must not end it)" % hist
+        if pa.get("S") != pb.get("S"):
+            return "after %s the loopback servers saw [%s] (server/flow.seq.len), the flow's own destination should have seen [%s]" % (hist, pa.get("S"), pb.get("S"))
+        if pa.get("C") != pb.get("C"):
+            return "after %s the client was handed [%s] (flow-by-labels/flow-answered.seq.len), expected [%s]" % (hist, pa.get("C"), pb.get("C"))
+        if pa.get("g") != pb.get("g") or pa.get("t") != pb.get("t") or pa.get("o") != pb.get("o"):
+            return ("after %s: outbound_udp_sockets=%s, pipe table=%s flows, open descriptors=%s; live flows give gauge=%s table=%s descriptors=%s"
+                    % (hist, pa.get("g"), pa.get("t"), pa.get("o"), pb.get("g"), pb.get("t"), pb.get("o")))
+        if pa.get("closed") != pb.get("closed"):
+            return "closing the client side ended exchange() with %s, expected %s" % (pa.get("closed"), pb.get("closed"))
+        return None  # relayed byte counters only: C16's subject
+    if len(io) != len(mo):
+        return "history %s: %d observations, model %d" % (q, len(io), len(mo))
+    return None
+
+
 def judge_c19(d):
     q, impl, model = d["query"], d["impl"], d["model"]
     io, mo = impl.split(","), model.split(",")
@@ -639,6 +678,32 @@ PROPS = {
                  "HTTP/3 not driven; non-CONNECT requests that connect successfully are answered by the origin (C17)"],
         assumptions=["_icmp with ICMP forwarding not configured, and a multiplexer that fails to be created, are answered 200 and then the "
                      "stream is dropped: the model follows the code; the property only fixes the accepted case"],
+    ),
+    "C07": dict(
+        suites=["c07"],
+        judge=judge_c07,
+        level="proof",
+        rule="7 directed and 150 (thorough 1500) random histories of 3-14 operations {client datagram on flow i (6 lengths up to 9000), "
+             "server reply on flow i (also after the flow was released), clock advance (13 amounts around timeout/4, timeout, "
+             "timeout+timeout/4), close} over 10 flows = 2 client sources x {2 live loopback servers, a port-53 server, a dead port, "
+             "a destination whose connect() fails}, run through the real udp_pipe::DuplexPipe wired to the real direct forwarder "
+             "multiplexer under tokio's paused clock; after every operation: datagrams seen by each server, datagrams handed to the "
+             "client with their labels, outbound_udp_sockets, pipe table size, reported byte counts, whether exchange() returned, and "
+             "(after a timer period and at close) the process's open descriptors",
+        explanation="theorems sent_to_own_destination, datagram_step_output, reply_labelled_with_own_flow, reply_delivered_on_live_flow, "
+                    "tables_coupled, sockets_from_history, idle_flow_released, tick_expires_all_idle, fresh_flow_survives_advance, "
+                    "tick_period, dns_flow_released_when_answered, dns_flow_kept_while_pending, dns_query_counts, "
+                    "datagram_starts_fresh_flow, other_flows_undisturbed, only_close_terminates, unconnectable_leaves_nothing, "
+                    "socket_error_releases_flow, close_releases_everything, down_bytes_are_delivered_bytes about TT/Model/UdpFlows.lean",
+        trusted=["Linux loopback UDP: a datagram sent is in the receiver's queue when send() returns; a send to a dead port poisons the "
+                 "socket with ECONNREFUSED which tokio reports on the next send (not through readable()), as modelled by `poisoned`",
+                 "tokio paused clock: timeout(T/4) fires when the clock reaches its deadline, once per advance",
+                 "operations are atomic in the model: a timer tick cancelling exchange_once() in the middle of a datagram (between the "
+                 "table update and the socket send) is a runtime interleaving the paused clock cannot exhibit; read from the code: the "
+                 "only await between them is UdpSocket::send",
+                 "the SOCKS5 forwarder's multiplexer (same UdpDatagramPipeShared contract) is read, not driven by this suite (C13 "
+                 "drives its association exchange)"],
+        assumptions=["a stale reply could reach a new socket only if the kernel reused the ephemeral port within the history; ignored"],
     ),
     "C19": dict(
         suites=["c19"],
